@@ -1,8 +1,9 @@
 import Driver.Proto
 import PqModel.PageLoad
+import PqModel.PageReaders
 
 namespace Driver.Ops.C13
-open Driver PqModel.Crc PqModel.PageLoad
+open Driver PqModel.Crc PqModel.PageLoad PqModel.PageReaders
 
 def hex32 (v : BitVec 32) : String :=
   let n := v.toNat
@@ -19,6 +20,19 @@ def parsePath? : String → Option Path
   | "readDictionaryAPI" => some .readDictionaryAPI
   | _ => none
 
+/-- a chunk's script: `p` = a page, `x` = a failure (corrupted), `e` = io.EOF -/
+def parseScript? (s : String) : Option Script :=
+  s.toList.mapM fun c =>
+    if c = 'p' then some (.page { kind := .dataV2, body := [] })
+    else if c = 'x' then some (.fail .corrupted)
+    else if c = 'e' then some .eof
+    else none
+
+/-- MIRROR of the returning guard of `columnPages.ReadPage` / `multiPages.ReadPage`:
+    `err == nil || err != io.EOF` (the same list `Props/FactsCheckC13.concat_guards_as_mirrored` compares
+    with the source) -/
+def concatGuard (s : Sit) : Bool := holds s ["err==nil", "err!=EOF", "or"] == some true
+
 def parseKind? : String → Option PageKind
   | "dict" => some .dictionary
   | "v1" => some .dataV1
@@ -29,7 +43,9 @@ def parseKind? : String → Option PageKind
     * `crc32.bits <hex>` -> the same through the bit-serial `Crc.crcBits`
     * `crc32.update <crc hex8> <hex>` -> `crc32.Update(crc, IEEETable, data)`
     * `c13.load <path> <dict|v1|v2> <compressedSize> <header crc hex8> <stream hex>` ->
-      `ok <body hex>` | `err corrupted` | `err io` (mirror `PageLoad.load current`) -/
+      `ok <body hex>` | `err corrupted` | `err io` (mirror `PageLoad.load current`)
+    * `c13.concat <script>/<script>/…` (one script per row group, `-` = empty) ->
+      `ok pages=<n> err=<none|corrupted|io>`: `PageReaders.drain` of the concatenating reader -/
 def handle (toks : List String) : Option String :=
   match toks with
   | ["crc32", h] => some <|
@@ -52,6 +68,16 @@ def handle (toks : List String) : Option String :=
       | .error .corrupted => "err corrupted"
       | .error .io => "err io"
     | _, _, _, _, _ => "bad-op"
+  | ["c13.concat", scripts] => some <|
+    match (scripts.splitOn "/").mapM (fun t => if t = "-" then some [] else parseScript? t) with
+    | some cs =>
+      let (ps, e) := drain concatGuard (fuelFor cs) cs
+      let es := match e with
+        | none => "none"
+        | some .corrupted => "corrupted"
+        | some .io => "io"
+      s!"ok pages={ps.length} err={es}"
+    | none => "bad-op"
   | _ => none
 
 end Driver.Ops.C13
